@@ -20,7 +20,8 @@ func init() {
 			"(locked) pendingOps only under pendingMu, closedSend only under sendMu; (lockorder) sendMu is never acquired while pendingMu may be held; " +
 			"(once) registration precedes the write, the write-failure path removes the entry only if still present and then (and only then) returns the error, every removal in the reader is paired with an invocation of the removed callback; " +
 			"(drain) the deferred cleanup of consumeOutput aborts before closing the send side, closes the send side before taking pendingMu, drains every pending callback, and done is closed last; waitForResponses blocks on done; sendRequest refuses after an error or after closeSend; " +
-			"(unknown) every exit of the reader loop records a non-nil reason. " +
+			"(unknown) every exit of the reader loop records a non-nil reason; " +
+			"(eof) the framing layer the reader relies on reports an end of input inside a length prefix or message as io.ErrUnexpectedEOF (accumulated offset, payload phase, binary decoder; rules shared with C09), so that only a clean end is treated as a clean end. " +
 			"It does NOT decide exactly-once under all interleavings or absence of deadlock with a real pipe.",
 		NotDecided: []string{"exactly-once delivery under all interleavings (lock and path rules are necessary, not sufficient)", "absence of deadlock with a real pipe", "bounded time"},
 		Assume:     []string{"sync.Mutex / atomic.Bool behave as documented", "lock identity is the access path (root variable, field chain); a parameter, its capture cell and the closure's free variable denote the same object"},
@@ -29,6 +30,8 @@ func init() {
 	})
 	f := "internal/app/connectconformance/client_runner.go"
 	addMutants(
+		Mutant{ID: "C10-seed3-eof-lastread", Prop: "C10", File: "internal/delimited.go", Old: "\t\t\tif errors.Is(err, io.EOF) && offs > 0 {", New: "\t\t\tif errors.Is(err, io.EOF) && numRead > 0 {",
+			Expect: []string{"eof.chunk"}, Note: "seed C10-3: output cut inside a length prefix is reported as a clean end; the client is not marked terminated"},
 		Mutant{ID: "C10-latch-D1", Prop: "C10", File: f,
 			Old: "result.terminated.Store(true)", New: "result.terminated.Store(false)",
 			Expect: []string{"latch.terminated"}, Note: "original defect D1: process-done handler stores false"},
@@ -323,6 +326,9 @@ func runC10(p *Prog, r *Report) {
 		r.Sites++
 		r.Check(found, "drain.refuse-after-error", "R-GUARD", p.Pos(sendRequest.Pos()), "early non-nil return when an error is published", "sendRequest no longer refuses requests after a fatal client error")
 	}
+
+	// ---- eof: clean end vs truncated output (shared with C09) ----
+	framingEOFRules(p, r)
 
 	// ---- unknown: every exit of the reader records a reason ----
 	var reason *ssa.Alloc
